@@ -22,14 +22,55 @@ theorem checkCapacity_true (b : Buffer) (rate dur : Int) (h : b.checkCapacity ra
       · simp [a1, a2, a3] at h
         exact ⟨by omega, by omega, by omega, h⟩
 
-theorem clCheckIngestCapacity_true (c : Cluster) (d mx : Nat) (h : c.checkIngestCapacity d mx = true) :
-    d ≤ c.available.length ∧ c.ingest.length + d ≤ mx := by
-  unfold Cluster.checkIngestCapacity at h
+/-- F14: what the reservation counter `r` promises beyond the ingest pool -/
+theorem promised_eq_max (r : Int) (n : Nat) :
+    (if r - (n : Int) < 0 then (0 : Int) else r - (n : Int)) = max 0 (r - (n : Int)) := by
+  by_cases h : r - (n : Int) < 0
+  · rw [if_pos h, Int.max_eq_left (by omega)]
+  · rw [if_neg h, Int.max_eq_right (by omega)]
+
+/-- F14: the cluster test, as a proposition -/
+theorem clCheckIngestCapacity_iff (c : Cluster) (d mx : Nat) (r : Int) :
+    c.checkIngestCapacity d mx r = true ↔
+      (d : Int) + max 0 (r - (c.ingest.length : Int)) ≤ (c.available.length : Int) ∧
+        c.ingest.length + d ≤ mx := by
+  unfold Cluster.checkIngestCapacity
+  simp only [promised_eq_max]
   by_cases a1 : d > mx
-  · simp [a1] at h
-  · by_cases a2 : c.available.length ≥ d ∧ c.ingest.length + d ≤ mx
-    · exact a2
-    · simp [a1, a2] at h
+  · rw [if_pos a1]
+    exact ⟨fun h => (by cases h), fun h => (by omega)⟩
+  · by_cases a2 : (c.available.length : Int) - max 0 (r - (c.ingest.length : Int)) ≥ (d : Int) ∧
+        c.ingest.length + d ≤ mx
+    · rw [if_neg a1, if_pos a2]
+      exact ⟨fun _ => ⟨by omega, a2.2⟩, fun _ => rfl⟩
+    · rw [if_neg a1, if_neg a2]
+      exact ⟨fun h => (by cases h), fun h => absurd ⟨(by omega), h.2⟩ a2⟩
+
+-- F14: stated for an arbitrary reservation counter `r` (the old statement was the case `r = 0`);
+-- the new conjunct is the promised-machines inequality
+theorem clCheckIngestCapacity_true (c : Cluster) (d mx : Nat) (r : Int)
+    (h : c.checkIngestCapacity d mx r = true) :
+    d ≤ c.available.length ∧ c.ingest.length + d ≤ mx ∧
+      (d : Int) + max 0 (r - (c.ingest.length : Int)) ≤ (c.available.length : Int) := by
+  obtain ⟨h1, h2⟩ := (clCheckIngestCapacity_iff c d mx r).mp h
+  exact ⟨by omega, h2, h1⟩
+
+/-- F14: the repaired test is at least as strict as the old one (`reserved = 0`) -/
+theorem clCheckIngestCapacity_old (c : Cluster) (d mx : Nat) (r : Int)
+    (h : c.checkIngestCapacity d mx r = true) : c.checkIngestCapacity d mx = true := by
+  obtain ⟨h1, h2⟩ := (clCheckIngestCapacity_iff c d mx r).mp h
+  exact (clCheckIngestCapacity_iff c d mx 0).mpr ⟨by omega, h2⟩
+
+/-- F14: with nothing promised (`r ≤ |ingest pool|`) the repaired test is the old one -/
+theorem clCheckIngestCapacity_quiet (c : Cluster) (d mx : Nat) (r : Int) (hr : r ≤ c.ingest.length) :
+    c.checkIngestCapacity d mx r = c.checkIngestCapacity d mx := by
+  have e : ∀ a b : Bool, (a = true ↔ b = true) → a = b := by
+    intro a b; cases a <;> cases b <;> simp
+  apply e
+  rw [clCheckIngestCapacity_iff, clCheckIngestCapacity_iff]
+  have : max 0 (r - (c.ingest.length : Int)) = 0 := by omega
+  have : max 0 ((0 : Int) - (c.ingest.length : Int)) = 0 := by omega
+  constructor <;> intro ⟨h1, h2⟩ <;> exact ⟨by omega, h2⟩
 
 theorem checkIngestCapacity_true (s : Sys) (o : Obs) (s1 : Sys)
     (h : s.checkIngestCapacity o = .ok (s1, true)) :
@@ -51,14 +92,30 @@ theorem checkIngestCapacity_true (s : Sys) (o : Obs) (s1 : Sys)
         obtain ⟨h1, h2⟩ := h
         subst h2
         simp only [if_true] at h1
-        obtain ⟨c1, c2⟩ := clCheckIngestCapacity_true _ _ _ hcl
+        obtain ⟨c1, c2, _⟩ := clCheckIngestCapacity_true _ _ _ _ hcl
         obtain ⟨b1, b2, b3, b4⟩ := checkCapacity_true _ _ _ hbc
         exact ⟨c1, c2, hpi, b3, b2, b4, h1.symm⟩
       · simp at h
     · simp at h
 
+/-- F14: an admission also certifies that the machines available cover the demand AND what the
+reservation counter promises beyond the ingest pool -/
+theorem checkIngestCapacity_promised (s : Sys) (o : Obs) (s1 : Sys)
+    (h : s.checkIngestCapacity o = .ok (s1, true)) :
+    (o.ingestDemand : Int) + max 0 (s.provIngest - (s.cl.ingest.length : Int)) ≤
+      (s.cl.available.length : Int) := by
+  unfold checkIngestCapacity at h
+  split at h
+  · simp at h
+  · split at h
+    · rename_i hcl
+      exact (clCheckIngestCapacity_true _ _ _ _ hcl).2.2
+    · simp at h
+
+-- F14: hypothesis `hav` is the new inequality (demand + promised ≤ available)
 theorem checkIngestCapacity_admit (s : Sys) (o : Obs)
-    (hav : o.ingestDemand ≤ s.cl.available.length) (hlim : o.ingestDemand ≤ s.maxIngest)
+    (hav : (o.ingestDemand : Int) + max 0 (s.provIngest - (s.cl.ingest.length : Int)) ≤
+      (s.cl.available.length : Int)) (_hlim : o.ingestDemand ≤ s.maxIngest)
     (hing : s.cl.ingest.length + o.ingestDemand ≤ s.maxIngest)
     (hprov : s.provIngest + o.ingestDemand ≤ s.maxIngest)
     (hdur : 1 ≤ o.duration)
@@ -72,10 +129,8 @@ theorem checkIngestCapacity_admit (s : Sys) (o : Obs)
     have a2 : ¬ (s.buf.hot.total ≤ o.rate * o.duration) := by omega
     have a3 : ¬ (s.buf.hot.cur - o.rate * o.duration < 0) := by omega
     simp [a1, a2, a3, hcold]
-  have h2 : s.cl.checkIngestCapacity o.ingestDemand s.maxIngest = true := by
-    unfold Cluster.checkIngestCapacity
-    have a1 : ¬ (o.ingestDemand > s.maxIngest) := by omega
-    simp [a1, hav, hing]
+  have h2 : s.cl.checkIngestCapacity o.ingestDemand s.maxIngest s.provIngest = true :=
+    (clCheckIngestCapacity_iff _ _ _ _).mpr ⟨hav, hing⟩
   unfold checkIngestCapacity
   simp [h1, h2, hprov]
 
@@ -153,6 +208,9 @@ theorem admission_guard (now : Nat) (s s' : Sys) (oid : Oid) (o : Obs)
     o.est ≤ now ∧ o.status = .waiting ∧
     (o.demand : Int) ≤ (s.totalArrays : Int) - s.telUse ∧
     o.ingestDemand ≤ s.cl.available.length ∧
+    -- F14: new conjunct, the machines available also cover what is promised
+    (o.ingestDemand : Int) + max 0 (s.provIngest - (s.cl.ingest.length : Int)) ≤
+      (s.cl.available.length : Int) ∧
     s.cl.ingest.length + o.ingestDemand ≤ s.maxIngest ∧
     s.provIngest + o.ingestDemand ≤ s.maxIngest ∧
     o.rate * o.duration ≤ s.buf.hot.cur ∧ o.rate * o.duration < s.buf.hot.total ∧
@@ -169,9 +227,10 @@ theorem admission_guard (now : Nat) (s s' : Sys) (oid : Oid) (o : Obs)
     · simp at e
   · rw [h] at hv
     obtain ⟨rfl, _⟩ := Prod.mk.inj hv
+    have cp := checkIngestCapacity_promised s o s1 hc
     obtain ⟨c1, c2, c3, c4, c5, c6, rfl⟩ := checkIngestCapacity_true s o s1 hc
     obtain ⟨r1, r2, r3⟩ := (isReady_iff _ _ _).mp hr
-    exact ⟨r1, r3, r2, c1, c2, c3, c4, c5, c6, by simp, by simp, by simp⟩
+    exact ⟨r1, r3, r2, c1, cp, c2, c3, c4, c5, c6, by simp, by simp, by simp⟩
   · rw [h] at hv
     obtain ⟨rfl, _⟩ := Prod.mk.inj hv
     exact absurd (by simp) hadm
@@ -179,7 +238,9 @@ theorem admission_guard (now : Nat) (s s' : Sys) (oid : Oid) (o : Obs)
 theorem admission_on_time (now : Nat) (s : Sys) (oid : Oid) (o : Obs) (ho : s.obs? oid = some o)
     (hdue : o.est ≤ now) (hw : o.status = .waiting)
     (harr : (o.demand : Int) ≤ (s.totalArrays : Int) - s.telUse)
-    (hav : o.ingestDemand ≤ s.cl.available.length) (hlim : o.ingestDemand ≤ s.maxIngest)
+    -- F14: `hav` is the new inequality (demand + promised ≤ available)
+    (hav : (o.ingestDemand : Int) + max 0 (s.provIngest - (s.cl.ingest.length : Int)) ≤
+      (s.cl.available.length : Int)) (hlim : o.ingestDemand ≤ s.maxIngest)
     (hing : s.cl.ingest.length + o.ingestDemand ≤ s.maxIngest)
     (hprov : s.provIngest + o.ingestDemand ≤ s.maxIngest)
     (hdur : 1 ≤ o.duration)
